@@ -28,6 +28,25 @@ def unit_ev(N, m):
     return _EV[k]
 
 
+def make_ev(N, m, bx, via=None):
+    """Evolvent on the named box.  via=None: configured by the constructor; via=<other box>: constructed on
+    the other box, queried once in both directions, then re-configured with SetBounds - the second public
+    way of fixing the box (a property stated for every box must hold whichever way the box was set)."""
+    from mc.env import box
+    lo, up = box(bx, N)
+    if via is None:
+        return Evolvent(lo, up, N, m)
+    lo0, up0 = box(via, N)
+    ev = Evolvent(lo0, up0, N, m)
+    y = ev.GetImage(0.3)
+    ev.GetInverseImage(y)
+    ev.SetBounds(lo, up)
+    return ev
+
+
+VIA_PAIRS = [(v, b) for v in ("B0", "B1", "B2", "B3") for b in ("B0", "B1", "B2", "B3") if v != b]
+
+
 def x_of_prefix(N, p):
     """(left end, width) of the subinterval with digit prefix p (base 2^N); exact for N*len(p) <= 52"""
     x, w = 0.0, 1.0
